@@ -21,19 +21,24 @@ their kind, the order in which `to_string()` prints them, and the branch of the 
   (b) a visitor that answers `r` for the node `x` yields the tree in which exactly `x` is `r`.
 * `C13_of_schemaOK`: a schema all of whose rows are right (`schemaOK`, decidable) makes every tree
   `okTree`; hence `C13_full σ` for such a schema (the lifting theorem in its Φ ⇒ ∀-trees form).
-* `phi13` (Φ13, kernel evaluation on the generated schema): the probed schema differs from an OK schema
-  *exactly* by the listed `(class, slot, deviation)` triples, and every class without a listed triple
-  is `rowOK` (`phi13_rest`).
-* `C13_partial`: (a) and (b) for the probed schema on every tree that avoids the excepted
-  configurations (`okTree Schema.schema t`).  What is missing for the full statement is exactly the
-  list in `knownDevs`; each has a witness below (the model exhibits the deviation, by `decide`) and a
-  reproduction on the real code in `known_findings.json`.
-* `C13_once` (permutation theorem): on an `okTree` the calls are a permutation of `reqTags` — every required node
-  exactly once.  `expected` looks through container slots (`Select.cte`), so a WITH clause no longer excludes a tree
-  from `okTree` by itself (only the visiting order does).  `C13_unchanged`: unconditional.
+* `phi13` (Φ13, kernel evaluation on the generated schema): the probed schema differs from an OK schema *exactly* by the
+  `(class, slot, deviation)` triples of `knownDevs` — what is left after the library repairs is a CTE entry walked on its
+  own and the `TableColumn` objects of CREATE TABLE offered to the visitor, neither a finding on a statement tree — and
+  every class without a listed triple is `rowOK` (`phi13_rest`); `phi13_uniform`; `phi13_clean`.
+* `C13_partial`: (a) and (b) for the probed schema on every `okTree`.  Since the walker's order deviations are repaired,
+  ordinary statements are `okTree`: `phi13_samples` / `C13_samples_textual` check this in the kernel on parser trees of real
+  statements (SELECT … FROM … JOIN … WHERE …, WITH, UPDATE, INSERT, DELETE, set operations, sub-queries, placeholders) that
+  the extractor regenerates on every run.  Outside `okTree`: CREATE TABLE with column objects.
+* `C13_once` (permutation theorem): on an `okTree` the calls are a permutation of `reqTags` — every required node exactly
+  once; `expected` looks through container slots (`Select.cte`).  `C13_unchanged`: unconditional.
 * `C13_trace`, for every schema, tree and visitor: the log is a faithful trace of the visitor.
-* `C13_no_none_call` (every tree, every visitor, no hypothesis; via `phi13_clean`): the visitor is never called
-  with `None`.  `C13_regress_*`: regression examples for the deviations repaired in the library.
+* `C13_no_none_call` (every tree, every visitor, no hypothesis; via `phi13_clean`): the visitor is never called with `None`.
+* `C13_regress_*`: regression examples for the deviations repaired in the library (coverage, `None` call, replacement
+  targets, visiting order).
+* `[review]` section: `walk_congr`, `C13_review_once_reordered`, `C13_review_replace_reordered` — general theorems for walkers
+  that deviate only in the visiting order (any schema); on the probed schema they add nothing any more (`phi13_reordered`).
+Specification data not derived from the code: the slot kinds (which child slots are table / target / expression / query
+positions, which are names or containers) come from the hand-written `tools/harness/walkspec.py`.
 -/
 namespace MindsVerif.Props.C13
 open MindsVerif.Walk MindsVerif.Params MindsVerif.Gen
@@ -113,14 +118,15 @@ def namedDevs : List (String × String × Dev) :=
   (schemaDevs σ).map fun d =>
     (Schema.classNames.getD d.1 "", (Schema.slotNames.getD d.1 []).getD d.2.1 "", d.2.2)
 
-/-- the known findings of C13 (and C12) at schema level -/
+/-- what is left at schema level; neither shows on a statement tree, neither is a known finding:
+* `CommonTableExpression.query unvisited`: the branch for a CTE *entry walked on its own* traverses nothing — inside a
+  statement the entry is looked through by the `Select` / set-operation branch (`via`), which visits the body;
+* `CreateTable.columns extra`: the `TableColumn` objects of a CREATE TABLE are offered to the visitor although they are
+  not table references, expressions or queries (more calls than required, none missing; such trees are outside `okTree`
+  because the log then has entries that `expected` does not list). -/
 def knownDevs : List (String × String × Dev) :=
-  [("CommonTableExpression", "query", .unvisited),   -- a CTE entry walked on its own (never inside a tree)
-   ("CreateTable", "columns", .extra),               -- TableColumn objects are passed to the visitor
-   ("Join", "right", .order),
-   ("Select", "from_table", .order),
-   ("Select", "targets", .order),
-   ("Update", "where", .order)]
+  [("CommonTableExpression", "query", .unvisited),
+   ("CreateTable", "columns", .extra)]
 
 /-- Φ13: the probed schema deviates exactly at the listed triples -/
 theorem phi13 : namedDevs = knownDevs := by decide +kernel
@@ -155,32 +161,28 @@ def leaf (c s : String) (tag : Nat) : Node := .mk (cid "Identifier") (sid c s) t
 def tagsOf (t : Node) : List (Option Nat) := (walk σ cbLog t ()).log.map Visit.tag
 def expTags (t : Node) : List (Option Nat) := (expected σ t false false).map (·.1)
 
-/-- `a JOIN b`: right before left -/
-def wJoin : Node := .mk (cid "Join") 0 0 [leaf "Join" "left" 1, leaf "Join" "right" 2]
-theorem C13_witness_join : tagsOf wJoin = [some 0, some 2, some 1] ∧ expTags wJoin = [some 0, some 1, some 2] := by
-  decide +kernel
+/-! ### regression examples for deviations repaired in the library
 
-/-- `SELECT a FROM t LIMIT n`: FROM before the select list (LIMIT is visited since bf148c0) -/
+The four visiting-order deviations of the walker were repaired (dfd5aa9 Join, 240c37d Select, 66230b1 Update): the trees
+that used to witness them are now `okTree` and visited in textual order. -/
+
+/-- `a JOIN b`; `SELECT a FROM t LIMIT n`; `UPDATE t SET a = x WHERE c`; `WITH c AS (q) SELECT x` -/
+def wJoin : Node := .mk (cid "Join") 0 0 [leaf "Join" "left" 1, leaf "Join" "right" 2]
 def wSelect : Node := .mk (cid "Select") 0 0
   [leaf "Select" "targets" 1, leaf "Select" "from_table" 2, leaf "Select" "limit" 3]
-theorem C13_witness_select : tagsOf wSelect = [some 0, some 2, some 1, some 3]
-    ∧ expTags wSelect = [some 0, some 1, some 2, some 3] := by decide +kernel
-
-/-- `UPDATE t SET a = x WHERE c`: WHERE before SET -/
 def wUpdate : Node := .mk (cid "Update") 0 0
   [leaf "Update" "table" 1, leaf "Update" "update_columns" 2, leaf "Update" "where" 3]
-theorem C13_witness_update : tagsOf wUpdate = [some 0, some 1, some 3, some 2]
-    ∧ expTags wUpdate = [some 0, some 1, some 2, some 3] := by decide +kernel
-
-/-- `WITH c AS (q) SELECT x`: the select list is visited before the WITH body (the entry is looked through) -/
 def wCte : Node := .mk (cid "Select") 0 0
   [.mk (cid "CommonTableExpression") (sid "Select" "cte") 1
       [leaf "CommonTableExpression" "name" 2, leaf "CommonTableExpression" "query" 3],
    leaf "Select" "targets" 4]
-theorem C13_witness_cte : tagsOf wCte = [some 0, some 4, some 3] ∧ expTags wCte = [some 0, some 3, some 4] := by
+theorem C13_regress_order :
+    [wJoin, wSelect, wUpdate, wCte].all (fun t => okTree σ t && (tagsOf t == expTags t)) = true
+    ∧ tagsOf wJoin = [some 0, some 1, some 2] ∧ tagsOf wSelect = [some 0, some 1, some 2, some 3]
+    ∧ tagsOf wUpdate = [some 0, some 1, some 2, some 3] ∧ tagsOf wCte = [some 0, some 3, some 4] := by
   decide +kernel
 
-/-! ### regression examples for deviations repaired in the library -/
+
 
 /-- `CASE x WHEN a THEN b END` (a58885a operand visited, 5d2003c no `None` call) -/
 def wCase : Node := .mk (cid "Case") 0 0 [leaf "Case" "arg" 1, leaf "Case" "rules" 2, leaf "Case" "rules" 3]
@@ -229,20 +231,37 @@ example : okTree σ (.mk (cid "Update") 0 0 [leaf "Update" "table" 1, leaf "Upda
   decide +kernel
 example : okTree σ (.mk (cid "Case") 0 0 [leaf "Case" "rules" 1, leaf "Case" "rules" 2, leaf "Case" "default" 3]) = true := by
   decide +kernel
-/-- the excepted configurations are rejected by the hypothesis -/
-example : okTree σ wJoin = false ∧ okTree σ wSelect = false ∧ okTree σ wUpdate = false ∧ okTree σ wCte = false := by
-  decide +kernel
+/-- the remaining excepted configuration is rejected by the hypothesis: `CREATE TABLE t (c …)` with column objects -/
+example : okTree σ (.mk (cid "CreateTable") 0 0
+    [leaf "CreateTable" "name" 1, .mk (cid "TableColumn") (sid "CreateTable" "columns") 2 []]) = false := by decide +kernel
 
-/-! ### [review] "every required node exactly once" for trees that deviate ONLY in the visiting order
+/-! ### real statements: the hypothesis holds for parser trees of ordinary queries
 
-`okTree σ t` is false for every tree of the probed schema that contains `SELECT … FROM …` (FROM is walked before the select
-list), a `JOIN`, `UPDATE … SET … WHERE` or a WITH clause (`phi13`: `.order` deviations) — in the correspondence run of the
-evidence file more than half of the parser trees.  So `C13_partial`, `C13_once` (and `C12_visits`) say nothing about
-ordinary queries, although the order deviations do not affect WHICH nodes are visited, how often, with which flags, or where a
-replacement goes.  The walker never looks at the print template (`walk_congr`), and `reqTags` never looks at it either
-(`reqTags_congr`); hence the lifting theorem may be applied to the schema whose print templates are re-ordered to the walker's
-own order (`reorder`).  For the probed schema the re-ordered schema has NO order deviation left (`phi13_reordered`), and the
-four witness trees are `okTree` for it. -/
+`Gen.Schema.sampleTrees` are the parser trees of `Gen.Schema.sampleSql` (SELECT … FROM … JOIN … WHERE … GROUP BY … HAVING …
+ORDER BY … LIMIT, chained joins, WITH, UPDATE … SET … WHERE, multi-row INSERT, INSERT … SELECT, DELETE, CASE / CAST /
+extract / window function, UNION, sub-queries with EXISTS / IN, statements with placeholders), serialised by the harness
+from the live parser on every run. -/
+
+/-- every sample statement satisfies the hypothesis of `C13_partial` / `C13_once` … -/
+theorem phi13_samples : Schema.sampleTrees.length = 12 ∧ Schema.sampleTrees.all (okTree σ) = true := by decide +kernel
+
+/-- … and the model walks it in textual order, visiting exactly the required nodes -/
+theorem C13_samples_textual :
+    Schema.sampleTrees.all (fun t => tagsOf t == expTags t) = true := by decide +kernel
+
+example : Schema.sampleSql.head? = some
+    "SELECT a, b AS c FROM t JOIN u ON t.x = u.x WHERE a = 1 AND b IN (1, 2) GROUP BY a HAVING count(a) > 1 ORDER BY b LIMIT 3 OFFSET 1" := rfl
+
+/-! ### [review] "every required node exactly once" for walkers that deviate ONLY in the visiting order (general)
+
+Contributed by the independent review when the walker still visited FROM before the select list, the right side of a join
+first, WHERE before SET and WITH bodies late, which made `okTree σ t` false for ordinary queries.  Those order deviations
+are repaired in the library, so for the probed schema `σ` the plain theorems (`C13_partial`, `C13_once`) now apply to
+ordinary statements (`phi13_samples`).  The theorems below stay as *general* statements for any schema: the walker never
+looks at the print template (`walk_congr`), neither does `reqTags` (`reqTags_congr`); hence for a walker whose only
+deviation is the order, coverage / once / flags / replacement hold with the specification read on the schema whose print
+templates are re-ordered to the walker's own order (`reorder`).  On the probed schema `reorder` changes nothing that
+matters (`phi13_reordered`: the same two triples as `phi13`). -/
 
 -- [review]
 /-- rows agree on the walker's branch -/
@@ -346,8 +365,6 @@ theorem C13_review_once_reordered (σ : Schema) (t : Node) (h : okTree (reorder 
 theorem phi13_reordered : namedDevsR =
     [("CommonTableExpression", "query", .unvisited), ("CreateTable", "columns", .extra)] := by decide +kernel
 
--- [review]
-example : [wJoin, wSelect, wUpdate, wCte].all (okTree σr) = true := by decide +kernel
 
 -- [review] (b) of `C13_body` for the live walker, specification side read on the re-ordered schema
 theorem C13_review_replace_reordered (σ : Schema) (t : Node) (h : okTree (reorder σ) t = true) (x : Nat) (r : Node) :
@@ -358,12 +375,13 @@ theorem C13_review_replace_reordered (σ : Schema) (t : Node) (h : okTree (reord
   rw [hw] at this
   exact this
 
--- [review] `SELECT a FROM t JOIN u`-shaped tree: outside `okTree σ`, inside `okTree σr`; every node visited once
+-- [review, history] when FROM was walked first a `SELECT a FROM t JOIN u` tree was outside `okTree σ` and inside `okTree σr`;
+-- with the repaired walker it is inside both and visited in textual order
 example :
     let q : Node := .mk (cid "Select") 0 0
       [leaf "Select" "targets" 1,
        .mk (cid "Join") (sid "Select" "from_table") 2 [leaf "Join" "left" 3, leaf "Join" "right" 4]]
-    okTree σ q = false ∧ okTree σr q = true ∧ tagsOf q = [some 0, some 2, some 4, some 3, some 1]
+    okTree σ q = true ∧ okTree σr q = true ∧ tagsOf q = [some 0, some 1, some 2, some 3, some 4]
       ∧ reqTags σ q = [0, 1, 2, 3, 4] := by decide +kernel
 
 end MindsVerif.Props.C13
